@@ -612,6 +612,10 @@ func execPoll(t *testing.T, plan *simkit.Plan) *simkit.Result {
 			}
 		})
 		start("ctl", func() {
+			// (The endpoint's own polling goroutine starts with a scan as well:
+			// the scheduler, not the runtime, decides which of the two gets the
+			// endpoint's scan lock first.)
+			s.Gate("ctl", "start")
 			doScan("ctl", true)
 			for {
 				mu.Lock()
